@@ -31,6 +31,11 @@ EXTENDS Integers, Sequences, FiniteSets, TLC, Json
 
 Programs == ndJsonDeserialize("programs.ndjson")
 
+\* FALSE: Go's rule (the judge).  TRUE: layer B - llgo's representation of a panic in flight: one slot per goroutine
+\* (runtime excepKey) that `panic` overwrites and any `recover()` - whoever calls it - reads and clears; a frame that has
+\* run its deferred calls goes on unwinding iff the slot is still occupied.  Predicts the two known C04 deviations.
+CONSTANT PanicSlot
+
 VARIABLES prog,     \* index of the program being executed
           frames,   \* Seq(frame), innermost last
           store,    \* Seq(value): cell i holds store[i]
@@ -178,7 +183,7 @@ NewFrame(fname, argvals, caps, isDef, boundary) ==
                        THEN base + (CHOOSE i \in 1..np : fn.params[i] = x)
                        ELSE base + np + (CHOOSE i \in 1..nr : fn.results[i][1] = x)]
   IN [frame |-> [fn |-> fname, pc |-> 1, env |-> env, defers |-> <<>>, mode |-> "run", pval |-> Nil,
-                 recovered |-> FALSE, isDef |-> isDef, boundary |-> boundary, dsts |-> <<>>, gx |-> FALSE],
+                 recovered |-> FALSE, isDef |-> isDef, boundary |-> boundary, dsts |-> <<>>, gx |-> FALSE, slot |-> Nil],
       cells |-> [i \in 1..(np + nr) |-> IF i <= np THEN argvals[i] ELSE fn.results[i - np][2]]]
 
 ResultVals(f) == LET fn == Fn(f.fn) IN [i \in 1..Len(fn.results) |-> store[f.env[fn.results[i][1]]]]
@@ -189,6 +194,11 @@ Advance(f) == [f EXCEPT !.pc = @ + 1]
 \* a panic raised by a deferred call while the goroutine is exiting (Goexit) and then recovered does not
 \* cancel the exit: the frame goes on running its deferred calls in mode "exit"
 AfterRecover(f) == IF f.gx THEN "exit" ELSE "ret"
+\* the goroutine's panic slot lives in the bottom frame's record (layer B only)
+Slot == frames[1].slot
+WithSlot(fs, v) == IF PanicSlot THEN [fs EXCEPT ![1].slot = v] ELSE fs
+\* has the panic that frame f is unwinding with been recovered?
+Rec(f) == IF PanicSlot THEN Slot = Nil ELSE f.recovered
 RaiseIn(f, val) == [f EXCEPT !.mode = "panic", !.pval = val, !.recovered = FALSE]
 RtErr(kind) == [t |-> "rterr", kind |-> kind]
 
@@ -201,7 +211,7 @@ AssignAll(st, cells, paths, vals) ==
                  Tail(cells), Tail(paths), Tail(vals))
 
 DoPanicFault(kind) ==
-  /\ frames' = ReplaceTop(RaiseIn(Top, RtErr(kind)))
+  /\ frames' = WithSlot(ReplaceTop(RaiseIn(Top, RtErr(kind))), RtErr(kind))
   /\ UNCHANGED <<store, out, status>>
 
 StepRun ==
@@ -305,7 +315,7 @@ StepRun ==
     [] k = "panic" ->     \* ["panic", e]
         LET flt == Fault(ins[2], env) IN
         IF flt # "none" THEN DoPanicFault(flt)
-        ELSE /\ frames' = ReplaceTop(RaiseIn(f, [t |-> "pint", v |-> Eval(ins[2], env)]))
+        ELSE /\ frames' = WithSlot(ReplaceTop(RaiseIn(f, [t |-> "pint", v |-> Eval(ins[2], env)])), [t |-> "pint", v |-> Eval(ins[2], env)])
              /\ UNCHANGED <<store, out, status>>
     [] k = "showrec" ->   \* ["showrec", x]   x := code of the recovered value held in x (0 nil, v for panic(v), -100k run-time error)
         LET v == store[env[ins[2]]]
@@ -318,10 +328,12 @@ StepRun ==
            /\ UNCHANGED <<out, status>>
     [] k = "recover" ->   \* ["recover", x]   x := recover()
         LET n == Len(frames)
-            effective == f.isDef /\ n >= 2 /\ frames[n - 1].mode = "panic" /\ ~frames[n - 1].recovered
-            v == IF effective THEN frames[n - 1].pval ELSE Nil
+            effective == IF PanicSlot THEN Slot # Nil
+                         ELSE f.isDef /\ n >= 2 /\ frames[n - 1].mode = "panic" /\ ~frames[n - 1].recovered
+            v == IF effective THEN (IF PanicSlot THEN Slot ELSE frames[n - 1].pval) ELSE Nil
         IN /\ store' = [store EXCEPT ![env[ins[2]]] = v]
-           /\ frames' = IF effective
+           /\ frames' = IF PanicSlot THEN WithSlot(ReplaceTop(Advance(f)), Nil)
+                          ELSE IF effective
                           THEN [frames EXCEPT ![n] = Advance(f), ![n - 1] = [@ EXCEPT !.recovered = TRUE]]
                           ELSE ReplaceTop(Advance(f))
            /\ UNCHANGED <<out, status>>
@@ -343,7 +355,7 @@ StepUnwind ==
          rest == SubSeq(f.defers, 1, Len(f.defers) - 1)
          f1 == [f EXCEPT !.defers = rest]
      IN IF d.nilfn
-          THEN /\ frames' = ReplaceTop(RaiseIn(f1, RtErr("nilderef")))     \* calling a nil deferred function panics
+          THEN /\ frames' = WithSlot(ReplaceTop(RaiseIn(f1, RtErr("nilderef"))), RtErr("nilderef"))     \* calling a nil deferred function panics
                /\ UNCHANGED <<store, out, status>>
           ELSE LET nf == NewFrame(d.fn, d.args, d.caps, TRUE, FALSE) IN
                /\ store' = store \o nf.cells
@@ -359,7 +371,7 @@ StepUnwind ==
              IN IF f.isDef
                   THEN \* a deferred call returned to the frame that is unwinding
                        /\ frames' = [SubSeq(frames, 1, n - 1) EXCEPT ![n - 1] =
-                                        IF caller.mode = "panic" /\ caller.recovered
+                                        IF caller.mode = "panic" /\ Rec(caller)
                                           THEN [caller EXCEPT !.mode = AfterRecover(caller), !.pval = Nil] ELSE caller]
                        /\ UNCHANGED <<store, out, status>>
                   ELSE \* ordinary return: store results in the caller's destinations, continue after the call
@@ -369,15 +381,15 @@ StepUnwind ==
                        /\ frames' = [SubSeq(frames, 1, n - 1) EXCEPT ![n - 1] = Advance(caller)]
                        /\ UNCHANGED <<out, status>>
      ELSE IF f.mode = "panic" THEN
-        IF f.recovered THEN      \* recovered by the last deferred call: return normally with the named results
+        IF Rec(f) THEN      \* recovered by the last deferred call: return normally with the named results
            /\ frames' = ReplaceTop([f EXCEPT !.mode = AfterRecover(f), !.pval = Nil])
            /\ UNCHANGED <<store, out, status>>
         ELSE IF n = 1 \/ f.boundary THEN
            /\ status' = "exit2"                                        \* uncaught panic ends the program
-           /\ out' = Append(out, <<"PANIC", f.pval>>)
+           /\ out' = Append(out, <<"PANIC", IF PanicSlot THEN Slot ELSE f.pval>>)
            /\ UNCHANGED <<frames, store>>
         ELSE \* propagate into the caller: a panicking deferred call replaces the panic of the unwinding frame
-           /\ frames' = [SubSeq(frames, 1, n - 1) EXCEPT ![n - 1] = RaiseIn(frames[n - 1], f.pval)]
+           /\ frames' = [SubSeq(frames, 1, n - 1) EXCEPT ![n - 1] = RaiseIn(frames[n - 1], IF PanicSlot THEN Slot ELSE f.pval)]
            /\ UNCHANGED <<store, out, status>>
      ELSE \* mode = "exit" (Goexit): keep running deferred calls up to the goroutine boundary
         IF n = 1 /\ f.boundary THEN
@@ -399,7 +411,7 @@ MaxSteps == 3000
 Init ==
   /\ prog \in 1..Len(Programs)
   /\ LET nf == [fn |-> Programs[prog].main, pc |-> 1, env |-> <<>>, defers |-> <<>>, mode |-> "run", pval |-> Nil,
-                recovered |-> FALSE, isDef |-> FALSE, boundary |-> Programs[prog].boundary, dsts |-> <<>>, gx |-> FALSE]
+                recovered |-> FALSE, isDef |-> FALSE, boundary |-> Programs[prog].boundary, dsts |-> <<>>, gx |-> FALSE, slot |-> Nil]
      IN frames = <<nf>>
   /\ store = <<>> /\ out = <<>> /\ status = "run" /\ steps = 0
 
